@@ -9,4 +9,4 @@ NOT_APPLICABLE = {
 
 
 # Properties whose module has been reviewed and armed by the lead (only these are claimed in MANIFEST.json).
-ARMED = ["C01", "C02", "C03", "C04", "C05", "C06", "C07", "C08", "C09", "C10", "C11", "C12", "C14", "C15", "C16", "C17", "C18", "C19", "C20", "C21", "C22", "C23", "C24", "C25", "C26", "C27", "C28", "C29", "C30", "C31", "C32", "C33", "C35", "C36", "C37", "C38", "C39", "C40", "C41", "C42", "C43", "C45", "C46", "C48", "C49", "C50", "C52", "C53", "C54"]
+ARMED = ["C01", "C02", "C03", "C04", "C05", "C06", "C07", "C08", "C09", "C10", "C11", "C12", "C13", "C14", "C15", "C16", "C17", "C18", "C19", "C20", "C21", "C22", "C23", "C24", "C25", "C26", "C27", "C28", "C29", "C30", "C31", "C32", "C33", "C35", "C36", "C37", "C38", "C39", "C40", "C41", "C42", "C43", "C44", "C45", "C46", "C47", "C48", "C49", "C50", "C52", "C53", "C54"]
